@@ -790,7 +790,7 @@ pub fn run_c17(ctx: &mut Ctx) {
     let n = ctx.tier.pick(1500, 30_000);
     let mut inputs = gen_inputs(ctx.seed, n, 0x1700_0000, |_| {});
     let ex = c17_exhaustive(inputs.len());
-    let stride = ctx.tier.pick(4usize, 1);
+    let stride = ctx.tier.pick(5usize, 1);
     let exn: Vec<_> = ex.into_iter().enumerate().filter(|(i, _)| i % stride == (ctx.seed as usize) % stride).map(|(_, x)| x).collect();
     ctx.count("exhaustive_marker_visibility_cases", exn.len() as u64);
     ctx.extra.insert("exhaustive_product".into(), json!({"bits": 14, "stride": stride, "complete": stride == 1}));
